@@ -26,6 +26,8 @@ def run(repo, filt='', seed=0, timeout=1500):
                 shutil.copy(os.path.join(VERIF, 'witness', f), os.path.join(wdst, f))
         env = dict(os.environ, CARGO_TARGET_DIR=os.path.join(scratch, 'target'), CARGO_NET_OFFLINE='true', VERIF_SEED=str(seed), VERIF_TIER=os.environ.get('VERIF_TIER', 'quick'),
                    RUSTFLAGS='-Awarnings')
+        if env['VERIF_TIER'] == 'thorough':
+            env['VX_C14_D13'] = '1'   # replay the recorded non-terminating judgement sets (4 x 5 s)
         cmd = ['cargo', 'test', '--offline', '--test', 'vx_witness', '--', '--nocapture', '--test-threads', '8']
         if filt:
             cmd.insert(-3, filt) if False else cmd.insert(cmd.index('--') + 1, filt)
